@@ -1267,9 +1267,11 @@ def rule_value_keyed_caches(ctx: Ctx, rid="C01.NO-VALUE-KEYED-CACHE", modules=No
                         anns.append(a.vararg.annotation)
                     if a.kwarg:
                         anns.append(a.kwarg.annotation)
-                    transparent = anns and all(an is not None and norm(an) in ("str", "bytes") for an in anns)
+                    no_args = not anns          # nothing to key on: the one result is computed once
+                    transparent = no_args or all(an is not None and norm(an) in ("str", "bytes") for an in anns)
                     ctx.rep.check(transparent, rid, f"{m.rel}:{fn.name}[@{dn}]",
-                                  "cache on a function of str arguments only: transparent" if transparent else
+                                  ("cache on a function without parameters: one value, computed once" if no_args else
+                                   "cache on a function of str arguments only: transparent") if transparent else
                                   f"@{dn} on {fn.name}({norm(a)}): arguments that compare equal but differ in type or text (1, 1.0, True; "
                                   "(1, 2) and (1.0, 2.0)) are answered from one slot, so a result depends on what was asked before",
                                   site=m.site(fn), text=f"@{dn} {fn.name}({norm(a)})")
